@@ -375,4 +375,115 @@ theorem groupInput_bounds (m : Mode) (recs : List Rec) (k : Key) (S E : Int)
       obtain ⟨a, ha, rfl⟩ := List.mem_map.mp hd'
       exact hb a (relevant_sub .comp recs a (List.mem_filter.mp ha).1)
 
+/-! ### calendar: the computation only sees differences of dates -/
+
+def Row.shift (k : Int) (r : Row) : Row := { r with date := r.date + k }
+def Win.shift (k : Int) (w : Win) : Win :=
+  { w with start := w.start + k, stop := w.stop + k, date := w.date + k }
+
+theorem insertByDate_shift (k : Int) (x : Row) (l : List Row) :
+    insertByDate (x.shift k) (l.map (Row.shift k)) = (insertByDate x l).map (Row.shift k) := by
+  induction l with
+  | nil => simp [insertByDate]
+  | cons y ys ih =>
+    simp only [List.map_cons, insertByDate, Row.shift]
+    by_cases h : x.date < y.date
+    · have : x.date + k < y.date + k := by omega
+      simp [h, this, Row.shift]
+    · have : ¬ (x.date + k < y.date + k) := by omega
+      simp only [h, this, if_false, List.map_cons]
+      congr 1
+
+theorem sortByDate_shift (k : Int) (l : List Row) :
+    sortByDate (l.map (Row.shift k)) = (sortByDate l).map (Row.shift k) := by
+  unfold sortByDate
+  suffices h : ∀ acc : List Row,
+      (l.map (Row.shift k)).foldl (fun acc x => insertByDate x acc) (acc.map (Row.shift k))
+        = (l.foldl (fun acc x => insertByDate x acc) acc).map (Row.shift k) by
+    simpa using h []
+  induction l with
+  | nil => intro acc; rfl
+  | cons x xs ih =>
+    intro acc
+    simp only [List.map_cons, List.foldl_cons]
+    rw [insertByDate_shift, ih]
+
+theorem winsFrom_shift (ρ : Rounding) (k : Int) (rows : List Row) (prev : Option Row) :
+    winsFrom ρ (prev.map (Row.shift k)) (rows.map (Row.shift k))
+      = (winsFrom ρ prev rows).map (Win.shift k) := by
+  induction rows generalizing prev with
+  | nil => simp [winsFrom]
+  | cons x rest ih =>
+    rw [List.map_cons, winsFrom_cons, winsFrom_cons, List.map_cons]
+    have ih' := ih (some x)
+    simp only [Option.map_some] at ih'
+    rw [ih']
+    congr 1
+    have hs : startOff ρ (prev.map (Row.shift k)) (x.shift k) = startOff ρ prev x := by
+      cases prev with
+      | none => rfl
+      | some y =>
+        simp only [Option.map_some, startOff, Row.shift]
+        congr 1
+        omega
+    have he : endOff ρ (x.shift k) (rest.map (Row.shift k)) = endOff ρ x rest := by
+      cases rest with
+      | nil => rfl
+      | cons z zs =>
+        simp only [List.map_cons, endOff, Row.shift]
+        congr 1
+        omega
+    rw [hs, he]
+    simp only [Win.shift, Row.shift]
+    congr 1 <;> omega
+
+/-- moving the period and every report of a group by `k` days moves its windows by `k` days, for
+every rounding -/
+theorem groupWins_shift (ρ : Rounding) (k S E : Int) (rows : List Row) :
+    groupWins ρ (S + k) (E + k) (rows.map (Row.shift k)) = (groupWins ρ S E rows).map (Win.shift k) := by
+  unfold groupWins groupRows
+  have h : rows.map (Row.shift k) ++ [({ date := S + k, rate := 0 } : Row), ({ date := E + k, rate := 0 } : Row)]
+      = (rows ++ [({ date := S, rate := 0 } : Row), ({ date := E, rate := 0 } : Row)]).map (Row.shift k) := by
+    simp [Row.shift]
+  rw [h, sortByDate_shift]
+  exact winsFrom_shift ρ k _ none
+
+/-! ### frame: a group only sees the reports of its own site -/
+
+theorem keyOf_site (m : Mode) (r : Rec) : (keyOf m r).site = r.site := by cases m <;> rfl
+
+theorem relevant_filter_site (m : Mode) (recs : List Rec) (s : Nat) :
+    relevant m (recs.filter (fun r => r.site = s)) = (relevant m recs).filter (fun r => r.site = s) := by
+  cases m
+  · rfl
+  · simp only [relevant, List.filter_filter]
+    congr 1
+    funext r
+    exact Bool.and_comm _ _
+
+/-- the rows of a group are computed from the reports of the group's own site alone: reports of
+other sites (before, after or between them in the table) do not influence them -/
+theorem groupInput_frame (m : Mode) (recs : List Rec) (k : Key) :
+    groupInput m (recs.filter (fun r => r.site = k.site)) k = groupInput m recs k := by
+  unfold groupInput
+  rw [relevant_filter_site]
+  have hown : ((relevant m recs).filter (fun r => r.site = k.site)).filter (fun r => keyOf m r = k)
+      = (relevant m recs).filter (fun r => keyOf m r = k) := by
+    rw [List.filter_filter]
+    congr 1
+    funext r
+    by_cases h : keyOf m r = k
+    · have : r.site = k.site := by rw [← keyOf_site m r, h]
+      simp [h, this]
+    · simp [h]
+  have hdates : siteDates ((relevant m recs).filter (fun r => r.site = k.site)) k.site
+      = siteDates (relevant m recs) k.site := by
+    unfold siteDates
+    rw [List.filter_filter]
+    simp
+  simp only [hown]
+  cases m
+  · rfl
+  · simp only [hdates]
+
 end LdarModel.Window
